@@ -4,14 +4,16 @@ from checks.hgen import *
 
 META = dict(
     bounds=["S: concrete skeletons of <= 20 calls over 4 tag/ref pairs (2 tags, one special variant), ndds in {4,5,16}, cache on/off/toggled; payload symbolic",
-            "K: see harness/C12/*.c"],
+            "K1 (harness/C12/k1_ddsearch.c): 2 descriptor blocks of 3+2 entries with arbitrary 16-bit tags/refs (empty slots included); Hnewref for every counter value "
+            "0..65535 (wrapped branch included); HTIfind_dd for every search tag/ref with at least one wildcard, cursor position (6) and direction (2) enumerated"],
     stubs=["stdio = models/memio.c", "error stack = codes only", "malloc never fails", "atom cache swap via H4_VERIF hook"],
-    outside=["more than 4 live application descriptors per skeleton", "65535-reference exhaustion as a history (kernel only)"],
+    outside=["more than 4 live application descriptors per skeleton", "an object at ref 65535 at scenario level (the ref->descriptor array of 65536 entries does not finish; wrapped allocator decided by K1 from a symbolic list)", "all 65535 references in use (0 returned)"],
     manifest=dict(
         level="Bounded model checking (CBMC/SAT) of the real libhdf: (S) for each concrete create/delete/duplicate/reuse skeleton (DD-block sizes 4/5/16 so that "
               "several descriptor blocks are needed, descriptor cache on/off/toggled, close+reopen) the directory reported by Hexist/Hlength/Hnumber/Hfind "
               "(wildcards, both directions) and Htagnewref is compared with a reference map for all payloads, with every CBMC memory-safety check in the "
-              "library; (K) kernel harnesses decide the DD scan/count routines and the bit-vector/dynarray/tbbt containers for symbolic contents.",
+              "library; (K1) real Hnewref and HTIfind_dd over a symbolic descriptor list: the issued reference is unused file-wide for every counter value incl. the wrapped "
+              "branch (smallest free reference), and every wildcard search returns the first live match in search order or fails exactly when there is none.",
         note="Trusted: memio stdio contract, codes-only error stack, H4_VERIF hook, CBMC 6.11. Skeletons are enumerated (curated + VERIF_SEED-derived), not symbolic.",
         technique="CBMC bounded model checking of real hfiledd.c/hfile.c (whole libhdf linked); symbolic payload/DD contents; native ASan replay"),
 )
@@ -31,10 +33,12 @@ def curated():
     S.append(("dup-delete-orig", [CREATE(4), PUT(0, 5), DUPDD(3, 0), DELDD(0), CHECKALL(), GET(3), CLOSE(), OPEN(DFACC_READ), CHECKALL(), GET(3), CLOSE()]))
     return S
 
-def wrapped():
-    # reference counter at its maximum (an object with ref 65535) and refs out of ascending order in the directory
-    return ("wrapped-newref", [CREATE(4), PUT(0, 2), PUT(1, 2), PUT(2, 2), HNEWREF(), NEWREF(0), DELDD(1), HNEWREF(), CHECKALL(), CLOSE(), OPEN(DFACC_RDWR), HNEWREF(), CHECKALL(), CLOSE()],
-            "#define H4V_TAGS {1000, 1000, 1001, 1000}\n#define H4V_REFS {3, 2, 65535, 9}")
+def dup_high():
+    # a duplicate created under a reference ABOVE the file's reference counter, then the general allocator is asked for new references
+    # (the whole-library scenario with an object at ref 65535 does not finish: the per-tag ref->descriptor array grows to 65536 entries;
+    #  the wrapped counter is decided by kernel K1.newref instead)
+    return ("dup-high-newref", [CREATE(16), PUT(0, 2), DUPDD(3, 0), HNEWREF(), HNEWREF(), HNEWREF(), CHECKALL(), CLOSE(), OPEN(DFACC_RDWR), HNEWREF(), CHECKALL(), CLOSE()],
+            "#define H4V_TAGS {1000, 1000, 1001, 1000}\n#define H4V_REFS {1, 2, 1, 3}")
 
 def random_skeleton(rng):
     ops = [CREATE(rng.choice([4, 5, 16]))]
@@ -58,9 +62,19 @@ def random_skeleton(rng):
     ops += [CHECKALL(), CLOSE(), OPEN(DFACC_READ), CHECKALL(), CLOSE()]
     return ops
 
+def kernels():
+    units = [u for u in libhdf_units() if not u.endswith("/hfiledd.c")]
+    hs = []
+    inst = [(0, "newref", 0, 0)] + [(1, "find.c%d.d%d" % (c, d), c, d) for c in range(6) for d in (0, 1)]
+    for mode, nm, cur, dr in inst:
+        hs.append(H("C12.K1." + nm, "C12", src="harness/C12/k1_ddsearch.c", units=units, models=["memio", "herr", "memloops", "printf"], defs={"MODE": mode, "CUR": cur, "DIR": dr},
+                    unwind=8, kind="K", timeout=600, field_sens=64, symbolic="5 descriptors (tag, ref arbitrary 16-bit), reference counter, search tag/ref",
+                    bound="2 descriptor blocks of 3 + 2 entries; cursor position and direction enumerated", group="C12.K1"))
+    return hs
+
 def plan(ctx, tier, seed):
-    hs = [scenario("C12.S1." + nm, "C12", ops) for nm, ops in curated()]
-    nm, ops, extra = wrapped()
+    hs = kernels() + [scenario("C12.S1." + nm, "C12", ops) for nm, ops in curated()]
+    nm, ops, extra = dup_high()
     hs.append(scenario("C12.S1." + nm, "C12", ops, extra=extra))
     rng = random.Random(1200 + seed)
     for i in range(4 if tier == "quick" else 60):
